@@ -10,7 +10,7 @@
 //! Oracle: `refpdf::file::validate` reports nothing (header; every xref entry is the exact
 //! offset of `N G obj`; startxref → last section; /Size; stream /Length + EOL `endstream`; every
 //! reference resolves to an in-use object; token validity; no duplicate keys; /W /Index /N
-//! /First; /Root; /Encrypt + /ID iff encrypted, /Encrypt not in an object stream), and the
+//! /First; /Root; /Length exact where decidable (zlib trailer, unfiltered image size); /Encrypt + /ID iff encrypted, /Encrypt not in an object stream), and the
 //! library's own `ParseOptions::strict()` (recovery attempts = 0) opens the file and resolves
 //! every in-use object to the same kind of object, with the same dictionary keys, as the
 //! reference reader.
@@ -130,6 +130,47 @@ fn strict_open_and_resolve(bytes: &[u8], file: &PdfFile, password: Option<&str>)
         Ok(v) => v,
         Err(p) => vec![format!("panic: {p}")],
     }
+}
+
+/// /Length exactness where it is decidable from the stream itself: a stream whose only filter is
+/// FlateDecode must end with its zlib trailer (no byte of the EOL may be counted in), and an
+/// unfiltered image must hold exactly height × ⌈width × components × bits / 8⌉ bytes.
+fn inexact_lengths(file: &PdfFile) -> Vec<String> {
+    use std::io::Read;
+    let mut out = Vec::new();
+    for (&num, e) in &file.xref {
+        if !matches!(e, XEntry::InUse { .. }) {
+            continue;
+        }
+        let o = file.get(num);
+        let Some(s) = o.as_stream() else { continue };
+        let int = |k: &str| file.resolve_opt(s.dict.get(k)).as_int();
+        match file.resolve_opt(s.dict.get("Filter")) {
+            Obj::Name(n) if n == b"FlateDecode" => {
+                let mut d = flate2::bufread::ZlibDecoder::new(&s.data[..]);
+                let mut sink = Vec::new();
+                if d.read_to_end(&mut sink).is_ok() && d.total_in() as usize != s.data.len() {
+                    out.push(format!("object {num}: /Length {} but the zlib stream ends after {} bytes", s.data.len(), d.total_in()));
+                }
+            }
+            Obj::Null if file.resolve_opt(s.dict.get("Subtype")).as_name() == Some(b"Image") => {
+                let comps = match file.resolve_opt(s.dict.get("ColorSpace")).as_name() {
+                    Some(b"DeviceGray") => 1,
+                    Some(b"DeviceRGB") => 3,
+                    Some(b"DeviceCMYK") => 4,
+                    _ => continue,
+                };
+                if let (Some(w), Some(h), Some(b)) = (int("Width"), int("Height"), int("BitsPerComponent")) {
+                    let want = h * ((w * comps * b + 7) / 8);
+                    if want != s.data.len() as i64 {
+                        out.push(format!("object {num}: /Length {} but a {w}x{h} image with {comps} components of {b} bits has {want} bytes", s.data.len()));
+                    }
+                }
+            }
+            _ => {}
+        }
+    }
+    out
 }
 
 #[derive(Default)]
@@ -272,6 +313,11 @@ fn check_file(bytes: &[u8], cfg: Cfg, encrypted: Option<&str>, tag: &str) -> Ver
     for m in &issues {
         v.fail(format!("C03/invalid:{}", slug(m)), format!("{tag}: {m}"));
     }
+    if !has_encrypt && encrypted.is_none() {
+        for m in inexact_lengths(&file) {
+            v.fail(format!("C03/stream-length-not-exact:{}", slug(&m)), format!("{tag}: {m}"));
+        }
+    }
 
     // ---- after unlocking: every string / stream must decipher, pages must be readable
     if let Some(u) = &unlocked {
@@ -334,7 +380,7 @@ fn apply(c: &mut Ctx, v: Verdict) -> u64 {
 }
 
 fn run_program(c: &mut Ctx, p: &Program, cfgs: &[Cfg]) {
-    c.input(vx::h64(p));
+    c.input(vx::h64(&(p, cfgs)));
     if !p.pages.iter().all(|pg| pg.body.is_empty()) {
         c.nontrivial();
     }
@@ -492,31 +538,8 @@ fn run_encrypted(c: &mut Ctx, thorough: bool) {
     c.sample(json!({"strength": format!("{strength:?}"), "program": p.json(), "configurations": cfgs.len()}));
 }
 
-fn probe() {
-    let p = Program { pages: vec![prog::PageProg { size: 0, rot: 0, body: vec![prog::Call::HelvText] }], metadata: false };
-    for strength in STRENGTHS {
-        for ci in [0usize, 4] {
-            let cfg = Cfg::from_index(ci);
-            let mut d = prog::build(&p).unwrap();
-            d.set_encryption(oxidize_pdf::document::DocumentEncryption::new(USER_PW, OWNER_PW, oxidize_pdf::encryption::Permissions::all(), lib_strength(strength)));
-            let bytes = write_doc(d, cfg).unwrap();
-            let path = format!("/verif/.scratch/C03-w2/enc-{strength:?}-{ci}.pdf");
-            std::fs::write(&path, &bytes).unwrap();
-            let v = check_file(&bytes, cfg, Some(USER_PW), "probe");
-            eprintln!("{path}: {} fails", v.fails.len());
-            for (k, dd) in v.fails.iter().take(8) {
-                eprintln!("   {k} :: {}", vx::one_line(dd, 300));
-            }
-        }
-    }
-}
-
 pub fn run(rep: &mut Report) {
     c02::tune_allocator();
-    if std::env::var("C03_PROBE").is_ok() {
-        probe();
-        std::process::exit(0);
-    }
     let thorough = rep.tier.is_thorough();
     rep.rule(
         "one execution = one document (authoring program / named document / encrypted program) written under the 8 \
@@ -527,7 +550,7 @@ pub fn run(rep: &mut Report) {
     rep.assume("refpdf::file::validate implements ISO 32000-1 §7.5 (validated against the qpdf-written fixture interop_base.pdf, which must pass, and hand-damaged files in its unit tests)");
     rep.assume("a raw CR inside a literal string is syntactically valid (§7.3.4.2) and is not reported here (C09/C30 cover the value)");
     rep.assume("names with raw bytes above 0x7e are excluded from the name alphabet: §7.3.5 only recommends #xx for them");
-    rep.note("objstm_family", json!("object-stream configurations: programs without size/rotation/metadata deviation with one page and a body ≤ 1 (thorough ≤ 2), two pages with equal bodies ≤ 1 (thorough: any bodies ≤ 1), thorough also three pages with equal bodies ≤ 1; names-and-strings: control name or control string (quick: compressed, version 1.7 only); encrypted: empty / one text / one annotation body (quick: compressed, version 1.7 only; thorough: all bodies ≤ 1)"));
+    rep.note("objstm_family", json!("object-stream configurations (quick: header version 1.7 only): programs without size/rotation/metadata deviation with one page and a body ≤ 1 (thorough ≤ 2), two pages with equal bodies ≤ 1 (thorough: any bodies ≤ 1), thorough also three pages with equal bodies ≤ 1; names-and-strings: control name or control string (quick: compressed, version 1.7 only); encrypted: empty / one text / one annotation body (quick: compressed, version 1.7 only; thorough: all bodies ≤ 1)"));
     let dev = 1;
     let single_len = if thorough { 4 } else { 3 };
 
@@ -536,14 +559,14 @@ pub fn run(rep: &mut Report) {
     if on("single-page") {
         rep.explore("single-page", Explore::dev(dev), |c: &mut Ctx| {
             let p = prog::choose_single_page(c, single_len);
-            let cfgs = c02::configs_for(&p, thorough);
+            let cfgs = c02::configs_for(c, &p, thorough);
             run_program(c, &p, &cfgs);
         });
     }
     if on("multi-page") {
     rep.explore("multi-page", Explore::dev(if thorough { 1 } else { 0 }), |c: &mut Ctx| {
         let p = prog::choose_multi_page(c, 2, 3, 1);
-        let cfgs = c02::configs_for(&p, thorough);
+        let cfgs = c02::configs_for(c, &p, thorough);
         run_program(c, &p, &cfgs);
     });
     }
